@@ -688,6 +688,7 @@ def chain_start(toks, m, dot):
     while j >= 0:
         t = toks[j]
         if t.k == "c":
+            if t.s == "}": break      # end of a preceding block statement, not part of a method chain
             j = m[j] - 1; continue
         if t.k in ("id", "num", "str", "life") and t.s not in EXPR_STOP_BACK:
             j -= 1; continue
@@ -747,7 +748,8 @@ def r10_option_unfold(toks, stats, which=("map_or", "map", "map_or_else")):
         if hit < 0: return toks
         name = toks[hit + 1].s
         start = chain_start(toks, m, hit)
-        recv = toks[start:hit]
+        recv = [x.copy() for x in toks[start:hit]]
+        if recv: recv[0].sp = True
         args = split_args(toks, m, hit + 2)
         close = m[hit + 2]
         if name == "map_or":
@@ -1034,3 +1036,71 @@ def r10_result_unfold(toks, stats):
         new = T("(match") + recv + T("{ Ok(vx_v) => Ok(vx_v), Err(") + ps[0] + T(") => Err(") + body + T(") })")
         toks[start:close + 1] = new
         stats["R10.result_map_err"] = stats.get("R10.result_map_err", 0) + 1
+
+
+# ------------------------------------------------------------------------------------------------
+# R10d: Vec/iterator adapter idioms -> prelude functions with a sequence-level spec (closed list)
+#   X.extend(Y.into_iter().filter(C))            -> vextend_filter(&mut X, Y, C)
+#   Y.into_iter().filter(C).collect::<Vec<_>>()  -> vfilter(Y, C)
+#   Y.iter().map(C)                              -> vmap(&Y, C)          (value of type `impl Iterator`, consumed by extend/collect)
+#   X.extend(E)                                  -> vextend(&mut X, E)   (any other argument)
+# ------------------------------------------------------------------------------------------------
+def r10_vec_idioms(toks, stats):
+    def find(p, start=0):
+        return find_seq(toks, pat(p), start)
+    changed = True
+    while changed:
+        changed = False
+        m = match_table(toks)
+        # Y.into_iter().filter(C).collect::<Vec<_>>()  (possibly inside extend(..): handled first, then extend)
+        i = find(".into_iter().filter(")
+        if i >= 0:
+            start = chain_start(toks, m, i)
+            recv = toks[start:i]
+            fopen = i + 6   # index of '(' after filter
+            # locate the '(' of filter
+            k = i
+            while toks[k].s != "filter": k += 1
+            fopen = k + 1
+            fclose = m[fopen]
+            clos = toks[fopen + 1:fclose]
+            tail = [x.s for x in toks[fclose + 1:fclose + 11]]
+            if tail[:4] == [".", "collect", "::", "<"]:
+                # .collect::<Vec<_>>()
+                e = fclose + 1
+                while toks[e].s != "(": e += 1
+                end = m[e] + 1
+                new = T("vfilter(") + recv + T(",") + clos + T(")")
+                toks[start:end] = new
+                stats["R10.vfilter"] = stats.get("R10.vfilter", 0) + 1
+            else:
+                new = T("vfilter_iter(") + recv + T(",") + clos + T(")")
+                toks[start:fclose + 1] = new
+                stats["R10.vfilter_iter"] = stats.get("R10.vfilter_iter", 0) + 1
+            changed = True
+            continue
+        i = find(".iter().map(")
+        if i >= 0:
+            start = chain_start(toks, m, i)
+            recv = toks[start:i]
+            k = i
+            while toks[k].s != "map": k += 1
+            fopen = k + 1
+            fclose = m[fopen]
+            new = T("vmap(&") + recv + T(",") + toks[fopen + 1:fclose] + T(")")
+            toks[start:fclose + 1] = new
+            stats["R10.vmap"] = stats.get("R10.vmap", 0) + 1
+            changed = True
+            continue
+        for i, t in enumerate(toks):
+            if t.s == "." and i + 2 < len(toks) and toks[i + 1].s == "extend" and toks[i + 2].s == "(":
+                start = chain_start(toks, m, i)
+                recv = toks[start:i]
+                close = m[i + 2]
+                arg = toks[i + 3:close]
+                new = T("vextend(&mut") + recv + T(",") + arg + T(")")
+                toks[start:close + 1] = new
+                stats["R10.vextend"] = stats.get("R10.vextend", 0) + 1
+                changed = True
+                break
+    return toks
